@@ -36,6 +36,11 @@ class ChainFinder(object):
                 h = self.parent_lookup.get(h)
                 if h is None:
                     break
+                if h in new_hashes and self.descendents_by_top.get(h):
+                    # other trees are waiting for h: stop here, so that they
+                    # are all extended together when h itself is handled
+                    path.append(h)
+                    break
                 new_hashes.discard(h)
                 preceding_path = self.trees_from_bottom.get(h)
                 if preceding_path:
